@@ -877,5 +877,8 @@ for _p in ("C10", "C20"):
 PROPS["C16"]["rules"] = PROPS["C16"]["rules"] + [rules_mem.rule_alias_not_freed_before_cleanup]
 PROPS["C16"]["explanation"] += " (ALIASFREE) a local that names the block the failure cleanup frees through a record field is not freed in an error branch that goes on to the cleanup."
 
+PROPS["C14"]["rules"] = PROPS["C14"]["rules"] + [rules_access.rule_creator_checks_access]
+PROPS["C14"]["explanation"] += " (CREATEACC) a routine that allocates a reference and registers an id for a new object tests write permission first."
+
 NOT_APPLICABLE = {}
 
